@@ -7,8 +7,20 @@ def _merger():
     return MergerCheck()
 
 
+def _session():
+    from .session import SessionCheck
+    return SessionCheck()
+
+
+def _polytope():
+    from .session import PolytopeCheck
+    return PolytopeCheck()
+
+
 _FACTORIES = {
+    "C08": _session,
     "C13": _merger,
+    "C18": _polytope,
 }
 
 ALL_PROPS = set(_FACTORIES)
